@@ -34,6 +34,7 @@ func runC18(c *Ctx) {
 		return fmtFn != nil && strings.Contains(o.Key, shortName(fmtFn))
 	}, func(s *Ctx) { indexGuards(s, "R6") })
 	defer c.shared("R11", "C17/R3", "%s and %v are replaced by the rendering print gives the argument: the container renderer writes the documented pieces only (an element has the rendering it has on its own)", keyHas("render-write", "cycle-guard"), runC17)
+	defer c.shared("R12", "C04/R3", "%v renders an array that is shared but not cyclic in full: the renderer's ancestor test calls two arrays the same only when they share the last slot of their backing store", keyHas("alias", "isSame"), func(s *Ctx) { isSameTable(s, "R3") })
 	defer c.shared("R8", "C09/R3", "an argument of the wrong kind is an error: the copy made when arguments are evaluated keeps the kind (a regex stays a regex, so %%s rejects it)", keyHas("copy Value"), c09R3)
 	defer c.shared("R7", "C17/R2", "%f is replaced by the rendering of the number: String() and the renderer produce FormatFloat(x, 'f', -1, 64) and nothing else (no integer fast path)", ruleIs("R2"), runC17)
 	defer c.shared("R6", "C08/R4", "each directive shows the value its argument had when it was evaluated: call arguments (printf's included) are evaluated into cells of their own, so a later argument's side effect cannot change an earlier one", keyHas("call-arguments-copied"), c08R4)
@@ -251,6 +252,30 @@ func runC18(c *Ctx) {
 	}
 	for _, m := range []string{"unknown format code", "expected something after %%", "expected something after width specifier", "invalid width specifier", "width specifier too large", "missing argument"} {
 		c.check(errs[m], "R2", "error-arm "+m, p.Pos(pf.Pos()), "present", "printf has no `"+m+"` error arm")
+	}
+	// ... and no others: printf fails for the listed reasons only (a wrong or missing argument, reported by
+	// the argument check, among them); surplus arguments are ignored, not counted
+	nOther := 0
+	for _, ret := range returnsOf(pf) {
+		res := effectiveResults(ret)
+		ev := res[len(res)-1]
+		if isNilConst(ev) {
+			continue
+		}
+		e := sh(ev)
+		known := strings.Contains(e, "checkArg(") && !strings.Contains(e, "checkArgCount(")
+		for _, m := range []string{"unknown format code", "expected something after %", "expected something after width specifier", "invalid width specifier", "width specifier too large", "missing argument", "printf requires at least one argument"} {
+			if strings.Contains(e, m) {
+				known = true
+			}
+		}
+		if !known {
+			nOther++
+			c.violated("R2", fmt.Sprintf("error-arms-exact #%d", nOther), p.InstrPos(ret), "printf also fails with "+abbrev(e, 120)+": the statement lists its errors (a dangling %, an unknown directive, a bad or too large width, a missing or wrong argument) — a format with arguments to spare is written, not refused")
+		}
+	}
+	if nOther == 0 {
+		c.ok("R2", "error-arms-exact", p.Pos(pf.Pos()), "every error printf returns is one of the listed ones")
 	}
 	// the trailing-% guard precedes the read of the directive byte: i == end-1 -> error before i++
 	// argIndex: starts at 1, +1 per directive that consumes an argument
